@@ -409,7 +409,7 @@ func validateTextAfterAction(c context, text string) error {
 			if err != nil || !sc.isURLorTrustedResourceURL() {
 				continue
 			}
-			decoded := html.UnescapeString(c.attr.value + text)
+			decoded := decodeAttrValueForURLParser(c.attr.value + text)
 			if i := strings.IndexAny(decoded, ":/?#"); i != -1 && decoded[i] == ':' {
 				return fmt.Errorf("%q after an action at the start of the %q URL attribute value of this %q element might complete a URL scheme", text, attr, elem)
 			}
@@ -422,13 +422,27 @@ func validateTextAfterAction(c context, text string) error {
 // consists of dots only, in unencoded or percent-encoded form, and the text after the action
 // goes on with a dot.
 func dotsAroundAction(before, after string) bool {
-	before, after = strings.ToLower(html.UnescapeString(before)), strings.ToLower(html.UnescapeString(after))
+	before, after = strings.ToLower(decodeAttrValueForURLParser(before)), strings.ToLower(decodeAttrValueForURLParser(after))
 	if !strings.HasPrefix(after, ".") && !strings.HasPrefix(after, "%2e") {
 		return false
 	}
-	segment := before[strings.LastIndexAny(before, "/?#")+1:]
+	segment := before[strings.LastIndexAny(before, `/\?#`)+1:]
 	return segment != "" && strings.Replace(strings.Replace(segment, "%2e", "", -1), ".", "", -1) == ""
 }
+
+// decodeAttrValueForURLParser returns static text of an attribute value as a URL parser gets to
+// see it: character references decoded the way HTML parsers do it (html.UnescapeString leaves
+// single-digit references without semicolon, such as "&#9", alone), tabs and newlines removed.
+func decodeAttrValueForURLParser(s string) string {
+	s = unterminatedSingleDigitCharRefPattern.ReplaceAllStringFunc(s, func(m string) string {
+		return string(rune(m[2]-'0')) + m[3:]
+	})
+	return urlIgnoredCharacters.Replace(html.UnescapeString(s))
+}
+
+var unterminatedSingleDigitCharRefPattern = regexp.MustCompile(`&#[0-9](?:[^0-9;]|$)`)
+
+var urlIgnoredCharacters = strings.NewReplacer("\t", "", "\n", "", "\r", "")
 
 // unknownLinkRel is the linkRel of a link element whose rel attribute value contains an action.
 const unknownLinkRel = " {{unknown}} "
